@@ -188,5 +188,6 @@ LEVEL_TEXT = ("Machine-checked for every outcome of the random number generator:
               "C12_gen_leaves / C12_no_empty_list (leaves: instruction of the supplied list or NOOP, bool, i32, float in [0,1), bound or freshly drawn name; no empty list), C12_random_code_bound (bound >= 2: 1..bound-1 points; bound <= 1: None), "
               "C12_code_rand_bound (every i32 incl. i32::MIN: at most min(|n|,|max-points|)-1 points), C12_valid_gen_sound / C12_valid_gen_complete (the checker valid_gen holds of exactly the items some outcome produces). "
               "Tie to the code: membership - the real CodeGenerator and CODE.RAND run on the grid sizes 1..80 x bounds 0..80 x instruction lists x binding tables x new-name probabilities, valid_gen evaluated on every draw, None/Some and the surrounding state diffed against the model, every generated program printed, parsed back and executed by the real interpreter without panic. "
+              "Props/C12f.v (Flocq instance, real registry): a new name of the shape names::Generator yields is read back by the parser as that name, so generated programs whose new names have that shape print and parse back (the shape itself is observed on 400 000 draws per run). "
               "Defects found and repaired (fix: commits): random_code bound 1 sampled the empty range 1..1 (( 1 CODE.RAND ) panicked); CODE.RAND with i32::MIN overflowed i32::abs (debug panic, release ~2^64-point request).")
 LEVEL_NOTE = "Trusted: rand/names crates' range contracts (oracle hypotheses), Coq kernel, extraction, harness, generators. The generator is not seeded: agreement on individual draws cannot be diffed, only membership in the proved output set; distributional quality is not claimed. Theorems are closed under the global context."
